@@ -67,6 +67,42 @@ TABLE.update({
              "variant restricted as the statement says."),
 })
 
+TABLE.update({
+    'C09': dict(
+        technique="property-based testing (differential): Hypothesis files on disk read with / without an index twin built by "
+                  "the independent encoder (and by TdmsWriter), plus index-only refusal checks; oracle = model + equality of "
+                  "the two reads",
+        text="Thousands of generated files, including inheritance plans with metadata-less segments, padding and a data file "
+             "truncated next to a complete index, are read through read / open / read_metadata with and without the index "
+             "and compared with the model and each other; the index alone must describe the same objects and refuse data reads.",
+        note="Trusts vf/encode.py's index twin; exception type of refused reads is free; zero-length channels may return empty."),
+    'C15': dict(
+        technique="property-based testing (metamorphic): the same Hypothesis-drawn content encoded little-endian, big-endian "
+                  "and mixed per segment by the independent encoder must read identically and equal the model",
+        text="Each generated content (all data and property types, both layouts, multi-chunk, DAQmx) is encoded in three byte "
+             "orders and read eagerly and lazily with raw and converted timestamps.",
+        note="Trusts vf/encode.py's big-endian layout (ToC little-endian, all other fields in segment order)."),
+    'C19': dict(
+        technique="property-based testing with instrumentation: recording stream under TdmsFile.open, byte map of every chunk "
+                  "from the independent encoder as the oracle for each logged read",
+        text="Per generated file ~24 drawn requests (windows, slices, indices, repeated indices); every logged read must lie "
+             "inside the chunks overlapping the request (the requested channel's own bytes for contiguous layout) or inside "
+             "a 64-byte per-segment allowance; a repeated index into the cached chunk must read nothing.",
+        note="The 64-byte allowance and treating an empty request as sitting on its neighbouring chunk are explicit constants "
+             "of the check; reads during open() and lazy index building are outside the statement."),
+    'C20': dict(
+        level='fault_enumeration',
+        technique="fault injection + short call histories: field-aware malformed files and mismatching index files x path / "
+                  "caller streams x APIs, with /proc/self/fd accounting (gc disabled) as the oracle; atheris byte-level fuzzing "
+                  "of the same oracle in the thorough tier",
+        text="Thousands of fault cases (12 fault kinds x 5 index situations x 3 source kinds x read / read_metadata / with-open "
+             "/ open-close-read-close / defragment / TdmsWriter with-block incl. exception inside): after every step no "
+             "descriptor below the scratch directory may remain, caller streams stay open, repeated close is silent and reads "
+             "after close raise or return the right value.",
+        note="Linux /proc based; CPython reference counting closes dropped file objects immediately, so a missing explicit "
+             "close that only drops the reference is invisible; TdmsFile.open() itself raising is outside the statement."),
+})
+
 PENDING_REASON = "check not built yet in this session (planned in DESIGN.md section 4); not claimed until it runs"
 
 
